@@ -46,11 +46,24 @@ example : fields "+a.b,1:2::3,60".toUTF8.toList
 /-! ### the text round trip at record level, and (T1), (T2) -/
 
 /-- A well-formed record (`WF`: numbers in range, 2-byte locations / map ids, names whose quoted
-form `putdomtext` leaves unchanged, server names with a dot, an explicit serial unless the codec's
-is 0, address text that `ParseIP` reads back) marshals to a text that decodes to the same record.
-Covers `Z % . & + = @ S C ^ ' : M 8 !`. -/
+form the name writers leave unchanged, address text that `ParseIP` reads back, a parameter list
+whose text `FromText` reads back) marshals to a text that decodes to the same record.
+Covers all 17 line types `Z % . & + = @ S C ^ ' : M 8 ! B H`.
+
+Every restriction the seven C09 defects had forced on `WF` is gone:
+* any serial, whatever the codec's default serial — before commit 4019032 this was false:
+  `Za.b,ns.a.b,hm.a.b,0` (serial 0 written as an empty field, read back as the default serial);
+* `B` / `H` records, wildcard owners and targets beginning with `*.` included — before commit
+  3d0f541 this was false: `B*.a.b,c.d,60,,1,` (the `*.` of the owner was not written); before
+  commits 93d8e78, f23a325: `Ba.b,*.*.c,60,,1,` (one `*.` of the target lost per round trip);
+* server names that are fully qualified single labels (`PlainServer`: `c.`) — before commit e085238
+  this was false: `&a.b,,c.` (written as `c`, expanded to `c.ns.a.b` on reading);
+* the catch-all maps (`PlainMap`: `*.`) — before commit 88912b9 this was false: `M*.,m1` (written
+  as `M*`, the map of the exact name `*`);
+* names with a literal `*` label behind an empty one (`Plain` now holds for `.*.a.b`) — before
+  commit 38cc22d this was false: `+.*.a.b,1.2.3.4` (written as `+*.a.b`, a wildcard record). -/
 theorem parse_marshal (isPrint : Nat → Bool) (cfg : Cfg) (r : Record) (h : WF isPrint cfg r) :
-    ∃ t, marshalText isPrint r = .ok t ∧ parseRecord cfg t = .ok r := by
+    ∃ t, marshalText isPrint cfg r = .ok t ∧ parseRecord cfg t = .ok r := by
   cases r with
   | soa dom ns adm ser ref ret exp min ttl lo => exact ⟨_, rfl, pm_soa isPrint cfg _ _ _ _ _ _ _ _ _ _ h⟩
   | net lo ip ones lmap => exact ⟨_, rfl, pm_net isPrint cfg _ _ _ _ h⟩
@@ -74,19 +87,22 @@ theorem parse_marshal (isPrint : Nat → Bool) (cfg : Cfg) (r : Record) (h : WF 
       subst h0
       exact ⟨_, rfl, pm_rangepoint_none isPrint cfg lmap ip 0 hl hip hc⟩
     | some l => exact ⟨_, rfl, pm_rangepoint_some isPrint cfg lmap ip maskLen l hl hip hc hm (hlo l rfl)⟩
-  | svcb => exact absurd h id
+  | svcb https dom wild tgt ttl lo prio params =>
+    obtain ⟨hd, hw, ht, hsk, httl, hlo, hprio, ptxt, hto, hfrom, hpc⟩ := h
+    refine ⟨_, ?_, pm_svcb isPrint cfg https dom wild tgt ttl lo prio params ptxt hd hw ht hsk httl hlo hprio hfrom hpc⟩
+    simp only [marshalText, marshalFields, hto]
 
 /-- (T1) the re-serialised text compiles to exactly the same keys and values -/
 theorem compile_marshal_parse (isPrint : Nat → Bool) (cfg : Cfg) (r : Record) (h : WF isPrint cfg r) :
-    ∃ t, marshalText isPrint r = .ok t ∧
+    ∃ t, marshalText isPrint cfg r = .ok t ∧
       (parseRecord cfg t).map (recordKVs cfg) = .ok (recordKVs cfg r) := by
   obtain ⟨t, ht, hp⟩ := parse_marshal isPrint cfg r h
   exact ⟨t, ht, by rw [hp]; rfl⟩
 
 /-- (T2) serialising again gives the same text -/
 theorem marshal_idempotent (isPrint : Nat → Bool) (cfg : Cfg) (r : Record) (h : WF isPrint cfg r) :
-    ∃ t, marshalText isPrint r = .ok t ∧
-      (parseRecord cfg t).bind (marshalText isPrint) = .ok t := by
+    ∃ t, marshalText isPrint cfg r = .ok t ∧
+      (parseRecord cfg t).bind (marshalText isPrint cfg) = .ok t := by
   obtain ⟨t, ht, hp⟩ := parse_marshal isPrint cfg r h
   exact ⟨t, ht, by rw [hp]; exact ht⟩
 
@@ -100,14 +116,14 @@ def lineRoundTrips (isPrint : Nat → Bool) (cfg : Cfg) (line : Bytes) : Bool :=
   match parseRecord cfg line with
   | .error _ => true
   | .ok r =>
-    match marshalText isPrint r with
+    match marshalText isPrint cfg r with
     | .error _ => false
     | .ok t =>
       match parseRecord cfg t with
       | .error _ => false
       | .ok r2 =>
         recordKVs cfg r2 == recordKVs cfg r &&
-          (match marshalText isPrint r2 with
+          (match marshalText isPrint cfg r2 with
            | .ok t2 => t2 == t
            | .error _ => false)
 
@@ -115,7 +131,10 @@ def lineRoundTrips (isPrint : Nat → Bool) (cfg : Cfg) (line : Bytes) : Bool :=
 def text_normal_form_full : Prop :=
   ∀ (isPrint : Nat → Bool) (cfg : Cfg) (line : Bytes), lineRoundTrips isPrint cfg line = true
 
-/-- what holds: lines whose record is well-formed (`WF`) -/
+/-- what holds: lines whose record is well-formed (`WF`). After the repairs `WF` restricts a line
+only in ways that are not defects of the text codec: numbers in range, 2-byte ids (both always true
+of a decoded record), names without empty labels and without labels of 256 quoted bytes, and the
+library round trips (`net.IP`, `svcb.ParamList`) that are taken as given. -/
 theorem text_normal_form_partial (isPrint : Nat → Bool) (cfg : Cfg) (line : Bytes) (r : Record)
     (hp : parseRecord cfg line = .ok r) (h : WF isPrint cfg r) :
     lineRoundTrips isPrint cfg line = true := by
@@ -127,38 +146,95 @@ def rdbCfg : Cfg := { serial := 1700000000, noRnetOutput := true, ranger := true
 
 def str (s : String) : Bytes := s.toUTF8.toList
 
-/-- the code as written violates the full statement: an explicit SOA serial `0` is written as the
-empty field, which is read back as "use the default serial" -/
+/-- a label of 64 zero bytes written with octal escapes: 256 quoted bytes -/
+def longLabel : Bytes := (List.replicate 64 (str "\\000")).flatten
+
+/-- The statement without any hypothesis is still false, for a reason outside the seven repaired
+defects and outside DNS: `putdomtext` cuts a *quoted* label at `byte(len)` bytes like `putdom` cuts a
+raw one, so a label of more than 63 bytes whose quoted form reaches 256 bytes is written cut (here:
+dropped, 256 % 256 = 0) although the key keeps it. No label of at most 63 bytes is affected (its
+quoted form has at most 252 bytes).
+
+Before commits 3d0f541, 93d8e78 (with f23a325), 4019032, e085238, 88912b9, 38cc22d this was false on ordinary
+lines; the witness used to be `Za.b,ns.a.b,hm.a.b,0`, which now round-trips (examples below). -/
 theorem text_normal_form_full_false : ¬ text_normal_form_full := by
   intro h
-  have := h asciiPrint rdbCfg (str "Za.b,ns.a.b,hm.a.b,0")
+  have := h asciiPrint rdbCfg (str "+" ++ longLabel ++ str ".b,1.2.3.4")
   revert this
   decide +kernel
 
-/-! one witness per confirmed defect class (each is a line the real code accepts) -/
--- wildcard owner on SVCB / HTTPS lines (also through the escaped `\052.`): the `*.` is not written
-example : lineRoundTrips asciiPrint rdbCfg (str "B*.a.b,c.d,60,,1,") = false := by decide +kernel
-example : lineRoundTrips asciiPrint rdbCfg (str "H\\052.a.b,c.d,60,,1,") = false := by decide +kernel
--- SVCB target starting `*.*.`: one `*.` is dropped at every round
-example : lineRoundTrips asciiPrint rdbCfg (str "Ba.b,*.*.c,60,,1,") = false := by decide +kernel
--- empty server name on a root-owner line: `ns` expands again to `ns.ns`
-example : lineRoundTrips asciiPrint rdbCfg (str "&,,,") = false := by decide +kernel
-example : lineRoundTrips asciiPrint rdbCfg (str "@,,,") = false := by decide +kernel
-example : lineRoundTrips asciiPrint rdbCfg (str "S,,,") = false := by decide +kernel
--- fully qualified single-label server name: the trailing dot is dropped, then the name expands
-example : lineRoundTrips asciiPrint rdbCfg (str "&a.b,,c.") = false := by decide +kernel
-example : lineRoundTrips asciiPrint rdbCfg (str "@a.b,,c.") = false := by decide +kernel
--- catch-all map `M*.` / `8*.` is written as `M*` (the exact name `*`)
-example : lineRoundTrips asciiPrint rdbCfg (str "M*.,m1") = false := by decide +kernel
-example : lineRoundTrips asciiPrint rdbCfg (str "8*.,e1") = false := by decide +kernel
--- empty first label in front of `*`: dropping it turns the name into a wildcard
-example : lineRoundTrips asciiPrint rdbCfg (str "+.*.a.b,1.2.3.4") = false := by decide +kernel
-example : lineRoundTrips asciiPrint rdbCfg (str "M.*.a.b,m1") = false := by decide +kernel
--- and lines of the same shapes outside the classes do round-trip (non-vacuity of the check)
+/-! one former witness per repaired defect class: each of these lines failed the check before the
+commit named, and passes now -/
+-- before commit 4019032 (explicit SOA serial 0 written as the empty field) this was false
+example : lineRoundTrips asciiPrint rdbCfg (str "Za.b,ns.a.b,hm.a.b,0") = true := by decide +kernel
+example : lineRoundTrips asciiPrint {} (str "Za.b,ns.a.b,hm.a.b,0") = true := by decide +kernel
+-- before commit 3d0f541 (wildcard owner on SVCB / HTTPS lines, also through the escaped `\052.`:
+-- the `*.` was not written) these were false
+example : lineRoundTrips asciiPrint rdbCfg (str "B*.a.b,c.d,60,,1,") = true := by decide +kernel
+example : lineRoundTrips asciiPrint rdbCfg (str "H\\052.a.b,c.d,60,,1,") = true := by decide +kernel
+-- before commit 93d8e78 (SVCB target starting `*.*.`: one `*.` dropped at every round) this was
+-- false; the second line (kept target `*.`, written `*`) before its follow-up f23a325
+example : lineRoundTrips asciiPrint rdbCfg (str "Ba.b,*.*.c,60,,1,") = true := by decide +kernel
+example : lineRoundTrips asciiPrint rdbCfg (str "H,*.*.") = true := by decide +kernel
+-- before commit e085238 (empty server name on a root-owner line: `ns` expanded again to `ns.ns`;
+-- fully qualified single-label server name: trailing dot dropped, then the name expanded) these were false
+example : lineRoundTrips asciiPrint rdbCfg (str "&,,,") = true := by decide +kernel
+example : lineRoundTrips asciiPrint rdbCfg (str "@,,,") = true := by decide +kernel
+example : lineRoundTrips asciiPrint rdbCfg (str "S,,,") = true := by decide +kernel
+example : lineRoundTrips asciiPrint rdbCfg (str "&a.b,,c.") = true := by decide +kernel
+example : lineRoundTrips asciiPrint rdbCfg (str "@a.b,,c.") = true := by decide +kernel
+-- before commit 88912b9 (catch-all map `M*.` / `8*.` written as `M*`, the exact name `*`) these were false
+example : lineRoundTrips asciiPrint rdbCfg (str "M*.,m1") = true := by decide +kernel
+example : lineRoundTrips asciiPrint rdbCfg (str "8*.,e1") = true := by decide +kernel
+-- before commit 38cc22d (empty first label in front of `*`: dropping it turned the name into a
+-- wildcard) these were false
+example : lineRoundTrips asciiPrint rdbCfg (str "+.*.a.b,1.2.3.4") = true := by decide +kernel
+example : lineRoundTrips asciiPrint rdbCfg (str "M.*.a.b,m1") = true := by decide +kernel
+-- and lines of the same shapes outside the former classes round-trip as before
 example : lineRoundTrips asciiPrint rdbCfg (str "Za.b,ns.a.b,hm.a.b,7") = true := by decide +kernel
 example : lineRoundTrips asciiPrint rdbCfg (str "+*.a.b,::ffff:1.2.3.4,60,,\\000\\001,5") = true := by decide +kernel
 example : lineRoundTrips asciiPrint rdbCfg (str "&a.b,2001:db8::1,c,0") = true := by decide +kernel
 example : lineRoundTrips asciiPrint rdbCfg (str "M*.a.b,m1") = true := by decide +kernel
+
+/-- the records of the former witnesses are well-formed, so `parse_marshal` speaks about them:
+serial 0 under a non-zero default serial, a single-label fully qualified server, the catch-all map,
+a literal `*` label behind an empty one -/
+example : WF asciiPrint rdbCfg (.soa (str "a.b") (str "ns.a.b") (str "hm.a.b") 0 16384 2048 1048576 2560 2560 none) := by
+  refine ⟨?_, ?_, ?_, ?_, ?_, ?_, ?_, ?_, ?_, ?_⟩
+  · unfold Plain; decide +kernel
+  · unfold Plain; decide +kernel
+  · unfold Plain; decide +kernel
+  all_goals first
+    | decide
+    | (intro l hl; cases hl)
+
+example : WF asciiPrint rdbCfg (.ns (str "a.b") none (str "c.") 259200 none) := by
+  refine ⟨?_, ipOK_none, ?_, ?_, ?_, ?_⟩
+  · unfold Plain; decide +kernel
+  · unfold PlainServer; decide +kernel
+  · decide +kernel
+  · decide
+  · intro l hl; cases hl
+
+example : WF asciiPrint rdbCfg (.ipmap (str "*.") (str "m1")) := by
+  refine ⟨?_, by decide +kernel⟩
+  unfold PlainMap; decide +kernel
+
+example : Plain asciiPrint (str ".*.a.b") := by unfold Plain; decide +kernel
+
+-- a wildcard `B` record whose kept target begins with `*.` (the line `B*.a.b,*.*.c,60,,1,`)
+example : WF asciiPrint rdbCfg (.svcb false (str "a.b") true (str "*.c") 60 none 1 []) := by
+  refine ⟨?_, ?_, ?_, ?_, ?_, ?_, ?_, [], ?_, ?_, ?_⟩
+  · unfold Plain; decide +kernel
+  · intro h; cases h
+  · unfold Plain; decide +kernel
+  · intro _; decide +kernel
+  · decide
+  · intro l hl; cases hl
+  · decide
+  · rfl
+  · rfl
+  · simp
 
 /-- non-vacuity of `WF`: a concrete well-formed record -/
 example : WF asciiPrint rdbCfg (.addr (str "a.b") true (some (v4Prefix ++ [1, 2, 3, 4])) 60 (some [0, 1]) 5) := by
@@ -181,7 +257,7 @@ theorem rangepoint_text_roundtrip (isPrint : Nat → Bool) (cfg : Cfg) (lmap : B
     (maskLen : Nat) (loc : Option Bytes) (hl : lmap.length = 2)
     (hip : parseIP (Svcb.ipString ip) = some ip) (hc : (0x2c : UInt8) ∉ Svcb.ipString ip)
     (hm : maskLen < 256) (hlo : LocOK loc) :
-    ∃ t, marshalText isPrint (.rangepoint lmap ip maskLen loc) = .ok t ∧
+    ∃ t, marshalText isPrint cfg (.rangepoint lmap ip maskLen loc) = .ok t ∧
       parseRecord cfg t = .ok (.rangepoint lmap ip (if loc.isSome then maskLen else 0) loc) ∧
       (parseRecord cfg t).map (recordKVs cfg) = .ok [rangePointKV lmap ip maskLen loc] := by
   cases loc with
@@ -192,21 +268,10 @@ theorem rangepoint_text_roundtrip (isPrint : Nat → Bool) (cfg : Cfg) (lmap : B
     have hp := pm_rangepoint_some isPrint cfg lmap ip maskLen l hl hip hc hm (hlo l rfl)
     exact ⟨_, rfl, hp, by rw [hp]; rfl⟩
 
-example : (marshalText asciiPrint (.rangepoint [0x6d, 0x31] (v4Prefix ++ [10, 0, 0, 0]) 104 (some [0x61, 0x61]))).toOption
+example : (marshalText asciiPrint {} (.rangepoint [0x6d, 0x31] (v4Prefix ++ [10, 0, 0, 0]) 104 (some [0x61, 0x61]))).toOption
     = some (str "!\\155\\061,10.0.0.0,8,\\141\\141") := by decide +kernel
 
 /-! ### (T5) preprocessing -/
-
-theorem rangePointKV_point (m : Bytes) (p : Rearr.Point) :
-    rangePointKV m (Rearr.natToIP p.ip) (p.maskLen % 256) p.loc = Rearr.pointKV m p := by
-  unfold rangePointKV Rearr.pointKV
-  cases p.loc with
-  | none => rfl
-  | some l =>
-    have : UInt8.ofNat (p.maskLen % 256) = UInt8.ofNat p.maskLen := by
-      apply UInt8.toNat_inj.mp
-      simp
-    simp only [this]
 
 /-- the accumulator part of preprocessing, relative to the rearranger: the `!` line written for a
 range point decodes and compiles to exactly the key/value `SubnetRanger.MarshalMap` emits for that
@@ -214,7 +279,7 @@ point directly (`Rearr.pointKV`, from which `Rearr.rangePointKVs` is built) -/
 theorem accumulator_line_compiles (isPrint : Nat → Bool) (cfg : Cfg) (mp : Bytes × Rearr.Point)
     (hl : mp.1.length = 2) (hip : parseIP (Svcb.ipString (Rearr.natToIP mp.2.ip)) = some (Rearr.natToIP mp.2.ip))
     (hc : (0x2c : UInt8) ∉ Svcb.ipString (Rearr.natToIP mp.2.ip)) (hlo : LocOK mp.2.loc) :
-    ∃ t, marshalText isPrint (pointRecord mp) = .ok t ∧
+    ∃ t, marshalText isPrint cfg (pointRecord mp) = .ok t ∧
       (parseRecord cfg t).map (recordKVs cfg) = .ok [Rearr.pointKV mp.1 mp.2] := by
   obtain ⟨t, ht, _, hk⟩ := rangepoint_text_roundtrip isPrint cfg mp.1 (Rearr.natToIP mp.2.ip)
     (mp.2.maskLen % 256) mp.2.loc hl hip hc (Nat.mod_lt _ (by decide)) hlo
@@ -222,6 +287,9 @@ theorem accumulator_line_compiles (isPrint : Nat → Bool) (cfg : Cfg) (mp : Byt
 
 def sameMultiset (a b : List KV) : Bool :=
   a.all (fun x => a.count x == b.count x) && b.all (fun x => a.count x == b.count x)
+
+theorem sameMultiset_self (a : List KV) : sameMultiset a a = true := by
+  simp [sameMultiset]
 
 /-- the property on one file as a computable check (RocksDB codec settings): preprocessing fails,
 or original and preprocessed file compile to the same multiset of key/value records -/
@@ -234,26 +302,103 @@ def prepPreserves (isPrint : Nat → Bool) (cfg : Cfg) (lines : List Bytes) : Bo
     | none, none => true
     | _, _ => false
 
+/-- every `Z` line of the file that decodes has a well-formed record (what `parse_marshal` needs
+for the normalised SOA text to decode to the same record again) -/
+def SoaLinesWF (isPrint : Nat → Bool) (cfg : Cfg) (lines : List Bytes) : Prop :=
+  ∀ raw ∈ lines, ∀ l r, filterLine raw = some l → l.head? = some 0x5a → parseRecord cfg l = .ok r →
+    WF isPrint cfg r
+
+/-- every range point the accumulator ends up with has a 2-byte map id and location and an address
+whose text `ParseIP` reads back (properties of `getlmap` / `getloc`, the rearranger and `net.IP`
+that are validated by the correspondence runs, not proved here) -/
+def PointsOK (isPrint : Nat → Bool) (cfg : Cfg) (lines : List Bytes) : Prop :=
+  ∀ out subs mps, preprocessLoop isPrint cfg lines [] [] = .ok (out, subs) → rangePoints subs = some mps →
+    ∀ mp ∈ mps, PointOK mp
+
+/-- (T5) **Preprocessing preserves the compiled database** (RocksDB codec settings): whenever the
+preprocessor accepts a file, the original and the preprocessed file either both fail to compile or
+compile to the same keys and values — in fact to the same *list*: the copied and normalised lines
+compile, in order, to the records of the original lines, the subnet lines are gone, and the `!`
+lines compile to exactly the range points `SubnetRanger.MarshalMap` computes from the subnets.
+Lines behind blanks, one-character lines, comments, undecodable non-`%`/`Z` lines, any serial are
+all covered.
+
+Before commit 4969793 this was false: `["Z"]` (the preprocessor decoded and rewrote a line of the
+single character `Z` into an SOA record for the root, the parser skips lines shorter than two
+bytes) and `["%aa,10.0.0.0/8,m1", " %bb,11.0.0.0/8,m1"]` (a subnet line behind a blank was copied
+instead of being accumulated). Before commit 4019032 it was false on `["Za.b,x.y,z.w,0"]` (explicit
+serial 0 normalised to an empty field and filled in with the default serial on compilation). -/
+theorem preprocess_preserves_compile (isPrint : Nat → Bool) (cfg : Cfg) (lines : List Bytes)
+    (hn : cfg.noRnetOutput = true) (hz : SoaLinesWF isPrint cfg lines) (hpt : PointsOK isPrint cfg lines) :
+    prepPreserves isPrint cfg lines = true := by
+  unfold prepPreserves preprocess
+  split
+  · rfl
+  · rename_i out hpre
+    split at hpre
+    · cases hpre
+    · cases hloop : preprocessLoop isPrint cfg lines [] [] with
+      | error e => rw [hloop] at hpre; cases hpre
+      | ok os =>
+        obtain ⟨out0, subs⟩ := os
+        rw [hloop] at hpre
+        simp only [] at hpre
+        cases hrp : rangePoints subs with
+        | none => simp only [rangePointLines, hrp] at hpre; cases hpre
+        | some mps =>
+          simp only [rangePointLines, hrp] at hpre
+          cases hls : mps.mapM (pointLine isPrint) with
+          | none => rw [hls] at hpre; cases hpre
+          | some ls =>
+            rw [hls] at hpre
+            simp only [Except.ok.injEq] at hpre
+            subst hpre
+            obtain ⟨new, hout, hcmp⟩ := preprocessLoop_sim isPrint cfg hn lines [] [] out0 subs hz hloop
+            simp only [List.nil_append] at hout
+            subst hout
+            have hpts := compileLoop_points isPrint cfg mps ls
+            unfold compileLines
+            rw [compileLoop_append]
+            cases hc : compileLoop cfg lines [] [] with
+            | none =>
+              rw [hc] at hcmp
+              simp only [hcmp, Option.bind]
+            | some ks =>
+              obtain ⟨k, s⟩ := ks
+              rw [hc] at hcmp
+              simp only [List.nil_append] at hcmp
+              obtain ⟨hs, hnew⟩ := hcmp
+              subst hs
+              have hk := hpts k (hpt out0 subs mps hloop hrp) hls
+              have h0 : Rearr.rangePointKVs [] = some [] := rfl
+              simp only [hnew, Option.bind, hk]
+              rw [h0, rangePointKVs_eq, hrp]
+              simp only [Option.map, List.append_nil]
+              exact sameMultiset_self _
+
 /-- the natural full-strength statement about whole files -/
 def preprocess_preserves_compile_full : Prop :=
   ∀ (isPrint : Nat → Bool) (cfg : Cfg) (lines : List Bytes),
     cfg.ranger = true → cfg.noRnetOutput = true → prepPreserves isPrint cfg lines = true
 
-/-- the code as written violates it: the preprocessor decodes and rewrites a line consisting of the
-single character `Z` (→ an SOA record for the root), the parser skips lines shorter than two bytes -/
+/-- Without the hypothesis on `Z` lines the statement is still false, for the reason that keeps
+`text_normal_form_full` false (a label of more than 63 bytes whose quoted form reaches 256 bytes),
+not for any of the repaired defects. Before commit 4969793 the witness was the file `["Z"]`. -/
 theorem preprocess_preserves_compile_full_false : ¬ preprocess_preserves_compile_full := by
   intro h
-  have := h asciiPrint rdbCfg [str "Z"] rfl rfl
+  have := h asciiPrint rdbCfg [str "Z" ++ longLabel ++ str ".b,x.y,z.w"] rfl rfl
   revert this
   decide +kernel
 
--- further witnesses: explicit serial 0 (filled in with the codec's serial by the second reading);
--- a subnet line with a leading blank (copied verbatim, so it is rearranged separately from the
--- `!` lines of the other subnets of its map)
-example : prepPreserves asciiPrint rdbCfg [str "Za.b,x.y,z.w,0"] = false := by decide +kernel
-example : prepPreserves asciiPrint rdbCfg [str "%aa,10.0.0.0/8,m1", str " %bb,11.0.0.0/8,m1"] = false := by
+-- the former witnesses are preserved now: a one-character line (before commit 4969793 false); an
+-- explicit serial 0 (before commit 4019032 false); a subnet line behind a blank (before commit
+-- 4969793 false)
+example : prepPreserves asciiPrint rdbCfg [str "Z"] = true := by decide +kernel
+example : prepPreserves asciiPrint rdbCfg [str "+a.b,1.2.3.4", str "Z"] = true := by decide +kernel
+example : prepPreserves asciiPrint rdbCfg [str "Za.b,x.y,z.w,0"] = true := by decide +kernel
+example : prepPreserves asciiPrint rdbCfg [str "%aa,10.0.0.0/8,m1", str " %bb,11.0.0.0/8,m1"] = true := by
   decide +kernel
--- and files outside these classes are preserved (non-vacuity of the check)
+-- and the files that were preserved before still are
 example : prepPreserves asciiPrint rdbCfg
     [str "Za.b,ns.a.b,hm.a.b", str "%aa,10.0.0.0/8,m1", str "%bb,11.0.0.0/8,m1", str "# c", str "+a.b,1.2.3.4",
      str "%aa,::/0,m1", str "Ma.b,m1"] = true := by decide +kernel
